@@ -7,6 +7,7 @@ set do not depend on entries for other keys.
 import RQ.Model.Isolation
 import RQ.Gen.Tables
 import Mathlib.Tactic.SplitIfs
+import RQ.Lemmas.WorldH
 namespace RQ.Props.C13
 open RQ.Q
 
@@ -311,5 +312,20 @@ theorem lookup_frame {α : Type} (a b extra : List (String × α)) (k : String) 
     simpa using h e he
   unfold alookup
   simp only [List.find?_append, hex, Option.or_none]
+
+
+/-! ### the composed world (`RQ/Model/World.lean`) -/
+
+/-- **isolation from unrelated data, for whole runs of the trading core**: the market data of an instrument the run never touches — no
+order on it, no holding of it — has no influence on the run.  Remove every row of that instrument from every market table the run
+receives: the accounts, the books, the fee state and every published event are the same. -/
+theorem world_unrelated_data_has_no_influence (j : Nat) (w w' : World) (ins : List WIn)
+    (hs : RQ.Lemmas.WorldH.Same j w w') (hf : RQ.Lemmas.WorldH.Foreign j w) (hm : ∀ i ∈ ins, ¬ RQ.Lemmas.WorldH.Mentions j i) :
+    RQ.Lemmas.WorldH.Same j (w.run ins).1 (w'.run (ins.map (RQ.Lemmas.WorldH.strip j))).1 ∧
+    (w.run ins).2 = (w'.run (ins.map (RQ.Lemmas.WorldH.strip j))).2 :=
+  RQ.Lemmas.WorldH.run_ignores_unrelated j w w' ins hs hf hm
+
+/-- determinism of the composed core is definitional: a run is a FUNCTION of the start world and the inputs -/
+theorem world_run_deterministic (w : World) (ins ins' : List WIn) (h : ins = ins') : w.run ins = w.run ins' := by rw [h]
 
 end RQ.Props.C13
